@@ -485,3 +485,53 @@ func LongArgs(n int) (dump.File, string) {
  leaf l { type string { pattern "` + arg + `.*"; } default "` + arg + `"; units "` + arg + `"; must "` + arg + ` = 1"; m:e "` + arg + `"; } leaf r { type leafref { path "/m:t[m:` + arg + ` = 1]"; } } leaf after { type string; } }`
 	return dump.File{Name: "m.yang", Text: text}, arg
 }
+
+// AugmentLadder: module b with container top; x0 augments /b:top with container c0, x1 augments
+// /b:top/x0:c0 with c1, x2 augments /b:top/x0:c0/x1:c1 with c2 ...: a path through n+1 modules, each
+// step with another prefix. Every x(i) imports b and all x(j), j < i.
+func AugmentLadder(n int) []dump.File {
+	fs := []dump.File{{Name: "b.yang", Text: hdr("b") + " container top { leaf own { type string; } } }"}}
+	path := "/b:top"
+	for i := 0; i < n; i++ {
+		name := fmt.Sprintf("x%d", i)
+		var sb strings.Builder
+		sb.WriteString(hdr(name) + " import b { prefix b; }")
+		for j := 0; j < i; j++ {
+			fmt.Fprintf(&sb, " import x%d { prefix x%d; }", j, j)
+		}
+		fmt.Fprintf(&sb, " augment %s { container c%d { leaf l%d { type string; } } } }", path, i, i)
+		fs = append(fs, dump.File{Name: name + ".yang", Text: sb.String()})
+		path += fmt.Sprintf("/x%d:c%d", i, i)
+	}
+	return fs
+}
+
+// GroupingChainErrors: the grouping chain with k leaves of k different unknown types at the bottom.
+func GroupingChainErrors(n, k int) dump.File {
+	f := GroupingChain(n, false)
+	var sb strings.Builder
+	for i := 0; i < k; i++ {
+		fmt.Fprintf(&sb, " leaf bad%d { type nosuch%d; }", i, i)
+	}
+	last := fmt.Sprintf("grouping g%d { leaf l%d { type string; }", n, n)
+	f.Text = strings.Replace(f.Text, last, last+sb.String(), 1)
+	return f
+}
+
+// EqualNames: m0 with identity root; n modules, each declaring identities named a, k and z (the same
+// names in every module) and one of its own, all derived from root (z also from the previous
+// module's k).
+func EqualNames(n int) []dump.File {
+	fs := []dump.File{{Name: "m0.yang", Text: hdr("m0") + " identity root; leaf r { type identityref { base root; } } }"}}
+	for i := 1; i <= n; i++ {
+		name := fmt.Sprintf("m%d", i)
+		prev := ""
+		zb := ""
+		if i > 1 {
+			prev = fmt.Sprintf(" import m%d { prefix p; }", i-1)
+			zb = " base p:k;"
+		}
+		fs = append(fs, dump.File{Name: name + ".yang", Text: hdr(name) + " import m0 { prefix z; }" + prev + fmt.Sprintf(" identity a { base z:root; } identity k { base z:root; } identity z { base z:root;%s } identity own%d { base z:root; } }", zb, i)})
+	}
+	return fs
+}
